@@ -463,6 +463,22 @@ STATEMENT_TEMPLATES = (b'function f%d()\nx=1\nend', b'local function g%d()\nretu
                        b'::l%d::', b't%d={\n1,\n2\n}', b'return %d')
 
 
+FIXED_SHAPES = (
+    b'if a then\n x=1\nelse if b then\n c=1\n d=2\nelse\n e=3\nend end\n',                  # `else if` on one line, the inner if over several
+    b'x =\n  "hello" .. name\nlocal y =\n 1\nt = {\n a =\n 1,\n}\nfor i =\n1, 2 do\n z=i\nend\nn +=\n1\n',   # the value on the line after `=`
+    b'if a and\n b then\n c=1\nelseif d or\n e then\n f=2\nend\nwhile x or\n y do\n z=1\nend\nrepeat\n q=1\nuntil a and\n b\n',   # continued conditions
+    b'--[[debug]] print(x)\ndo\n --[[off]] y=1\n  --[[a]] --[[b]] z=2\nend\n',                 # a line that begins with a block comment
+    b'if a then\n x=1\n -- last words\nend\nwhile b do\n -- only a comment\nend\nfunction f()\n  return 1\n  -- after the return\nend\n',
+    b'if (c) do\n x=1\n if (d) do\n  y=2\n end\nend\n',
+    b'f(\n 1,\n 2\n)\nt={\n {\n 1\n },\n [2]=\n {\n }\n}\ng{\n a=1\n}\nh(function()\n return 1\nend)\n',
+    b'function f()\n return function()\n  return {\n   1\n  }\n end\nend\n',
+    b'a = b\n  + c\n  * d\ne = f\n  .. g\nh = i and\n  j\n',                                     # continuation lines of expressions
+    b'::top::\nfor i=1,3 do\n ::again::\n goto again\nend\ngoto top\n',
+    b'local function f(a,\n b,\n c)\n return a\nend\no:m(\n 1\n):n(\n 2\n)\n',
+    b'do ; end\nwhile w do ; end\ndo\n ;\n ;\nend\nx=1;\n;y=2\n',
+)
+
+
 def run_blank_runs(spec, ctx, cli_dir):
     """Runs of 2-5 empty / white-space-only lines in front of every kind of statement, at the top level and inside a block."""
     rng = ctx.rng
@@ -492,6 +508,12 @@ def run_blank_runs(spec, ctx, cli_dir):
                 case = {'src': src, 'width': width, 'style': 'blank-runs', 'scopes': scopes, 'nsig': len(reflex.sig(reflex.lex(src)))}
                 # (line-scoped templates: the depth oracle needs their token ranges; they are leaf lines here, so the plain oracle is right)
                 check_one(ctx, src, width, case, metamorphic_rng=rng)
+    # small programs in shapes the random layouts reach only now and then (each at three widths, each re-indented)
+    for src in FIXED_SHAPES:
+        for width in (2, 5, 0):
+            ctx.feature('fixed_shapes')
+            case = {'src': src, 'width': width, 'style': 'fixed-shape', 'scopes': [], 'nsig': len(reflex.sig(reflex.lex(src)))}
+            check_one(ctx, src, width, case, metamorphic_rng=rng)
     ctx.sample({'blank_runs': 'y=0 <2-5 blank lines> <statement> <blank lines> z=9, at top level and inside do...end'})
 
 
